@@ -38,7 +38,7 @@ LEVEL_NOTE = "Trusted: reference model for fragment delimitation and completion-
 
 @st.composite
 def strategy_(draw, tier):
-    cfg = {"max_depth": 3 if tier == "quick" else 4, "generics": True, "lit_in_union": False, "unsup": False, "fall_back": False, "std": True}
+    cfg = {"max_depth": 3 if tier == "quick" else 4, "field_conv": True, "generics": True, "lit_in_union": False, "unsup": False, "fall_back": False, "std": True}
     prog = draw(gen.programs(cfg))
     opts = {"aliaser": pick(draw, ["id", "camel", "pfx", "upper"]), "additional_properties": chance(draw, 0.25)}
     values = [gen.perturb_value(draw, prog, prog["root"], gen.value_for(draw, prog, prog["root"])) for _ in range(draw(st.integers(3, 5)))]
